@@ -89,3 +89,95 @@ func runHostileAmounts(b *harness.B) {
 		b.Violate("C17/cost/RPCReplenishAccountsResponse.TotalCost/panics-on-deposits-summing-beyond-128-bits", "TotalCost panicked ("+msg+") on two deposits of 2^127 reported by the host; its result is what the renter feeds to ReviseForReplenish", map[string]any{"panic": msg})
 	}
 }
+
+// runEndOfLife: contracts at the end of what a revision can express. (1) A price table whose tip lies past the
+// contract's expiration height (nothing relates the host-signed TipHeight to the contract; both the table and the
+// append request pass Validate): the remaining duration is not a number of blocks any more, the constructor must fail
+// cleanly rather than charge for a wrapped-around duration or panic. The assumption "TipHeight < proof height" of the
+// random sequences is about which results are submitted to consensus; this case is about the arithmetic only.
+// (2) A contract whose revision number is the last one (types.MaxRevisionNumber, "no further revisions are possible"):
+// a further revision cannot be accepted by consensus, so the paying constructors must refuse instead of wrapping the
+// number around.
+func runEndOfLife(b *harness.B) {
+	r := b.SubRng("end-of-life")
+	host, renter := newActor(r), newActor(r)
+	for it := 0; it < 40; it++ {
+		hp := rhp4.HostPrices{ContractPrice: types.Siacoins(1).Div64(10), StoragePrice: types.NewCurrency64(1 + r.Uint64N(40e9)), Collateral: types.NewCurrency64(r.Uint64N(80e9)),
+			IngressPrice: types.NewCurrency64(100), EgressPrice: types.NewCurrency64(100), FreeSectorPrice: types.NewCurrency64(1), TipHeight: 1000, ValidUntil: farFuture}
+		if it == 0 {
+			hp.StoragePrice, hp.Collateral = types.NewCurrency64(1), types.ZeroCurrency
+		}
+		hp.Signature = host.sk.SignHash(hp.SigHash())
+		fc, _ := rhp4.NewContract(hp, rhp4.RPCFormContractParams{RenterPublicKey: renter.pk, RenterAddress: renter.addr, Allowance: types.Siacoins(1000), Collateral: types.Siacoins(1000), ProofHeight: 1000 + 18 + r.Uint64N(500)}, host.pk, host.addr)
+		late := hp
+		past := 1 + r.Uint64N(3)
+		if it%4 == 3 {
+			past = 1 + r.Uint64N(1<<40)
+		}
+		late.TipHeight = fc.ExpirationHeight + past
+		late.Signature = host.sk.SignHash(late.SigHash())
+		n := uint64(1)
+		if it%2 == 1 {
+			n = 1 + r.Uint64N(256)
+		}
+		req := rhp4.RPCAppendSectorsRequest{Prices: late, Sectors: make([]types.Hash256, n)}
+		if err := req.Validate(host.pk); err != nil {
+			b.Inconclusive("end of life: append request with a late price table not admitted: " + errClass(err))
+			return
+		}
+		b.Eval(1)
+		b.Count("appends_with_a_price_table_tip_past_expiration", 1)
+		b.Distinct("end-of-life", "append", past > 3, n > 1)
+		wit := map[string]any{"contract": jsonOf(fc), "prices": jsonOf(late), "sectors": n}
+		var rev types.V2FileContract
+		var usage rhp4.Usage
+		var err error
+		if p, msg := call(func() { rev, usage, err = rhp4.ReviseForAppendSectors(fc, late, types.Hash256{1}, n) }); p {
+			b.Violate("C17/v4/ReviseForAppendSectors/price-table-tip-past-expiration/panics", fmt.Sprintf("expiration height %d, price table tip %d, %d sectors at %v H/byte/block: the constructor panicked (%s) instead of failing cleanly", fc.ExpirationHeight, late.TipHeight, n, late.StoragePrice, msg), wit)
+			continue
+		}
+		if err == nil {
+			b.Violate("C17/v4/ReviseForAppendSectors/price-table-tip-past-expiration/charges-a-wrapped-duration", fmt.Sprintf("expiration height %d, price table tip %d: the constructor succeeded and charged %v for storage (renter output %v -> %v); the duration ExpirationHeight-TipHeight wrapped around", fc.ExpirationHeight, late.TipHeight, usage.Storage, fc.RenterOutput.Value, rev.RenterOutput.Value), wit)
+		}
+	}
+	// (2) the last revision number
+	hp := rhp4.HostPrices{ContractPrice: types.Siacoins(1).Div64(10), StoragePrice: types.NewCurrency64(23148), Collateral: types.NewCurrency64(46296),
+		IngressPrice: types.NewCurrency64(100), EgressPrice: types.NewCurrency64(100), FreeSectorPrice: types.NewCurrency64(1), TipHeight: 1000, ValidUntil: farFuture}
+	hp.Signature = host.sk.SignHash(hp.SigHash())
+	fc, _ := rhp4.NewContract(hp, rhp4.RPCFormContractParams{RenterPublicKey: renter.pk, RenterAddress: renter.addr, Allowance: types.Siacoins(10), Collateral: types.Siacoins(20), ProofHeight: 2000}, host.pk, host.addr)
+	fc.RevisionNumber = types.MaxRevisionNumber
+	type ctor struct {
+		name string
+		f    func() (types.V2FileContract, error)
+	}
+	for _, c := range []ctor{
+		{"PayWithContract", func() (types.V2FileContract, error) {
+			x := fc
+			err := rhp4.PayWithContract(&x, rhp4.Usage{RPC: types.Siacoins(1)})
+			return x, err
+		}},
+		{"ReviseForAppendSectors", func() (types.V2FileContract, error) {
+			x, _, err := rhp4.ReviseForAppendSectors(fc, hp, types.Hash256{1}, 1)
+			return x, err
+		}},
+		{"ReviseForSectorRoots", func() (types.V2FileContract, error) {
+			x, _, err := rhp4.ReviseForSectorRoots(fc, hp, 10)
+			return x, err
+		}},
+		{"ReviseForFundAccounts", func() (types.V2FileContract, error) {
+			x, _, err := rhp4.ReviseForFundAccounts(fc, types.Siacoins(1))
+			return x, err
+		}},
+	} {
+		b.Eval(1)
+		b.Count("revisions_of_a_contract_at_the_last_revision_number", 1)
+		b.Distinct("end-of-life", "last-revision-number", c.name)
+		var x types.V2FileContract
+		var err error
+		if p, msg := call(func() { x, err = c.f() }); p {
+			b.Violate("C17/v4/"+c.name+"/last-revision-number/panics", msg, nil)
+		} else if err == nil {
+			b.Violate("C17/v4/"+c.name+"/last-revision-number/revision-number-wraps-around", fmt.Sprintf("the contract is at revision number 2^64-1; %s succeeded with revision number %d, which consensus rejects (not higher than its parent)", c.name, x.RevisionNumber), map[string]any{"revisionNumber": x.RevisionNumber})
+		}
+	}
+}
